@@ -6,7 +6,7 @@
 //    repeated mpt_linepart_linear advancing by `raw`; mpt_linepart_join over the adjacent parts;
 //    mpt_linepart_join on arbitrary records; mpt_linepart_code / mpt_linepart_real.
 //    C++ consumer: linepart::array::set/apply for one or two coordinates, drawn points taken from polyline::part::points()
-//    (check_drawn()).
+//    (check_drawn()). Object histories on polylines and part arrays with kept copies (run_history()).
 // O: see check_parts(): progress, sum raw == N, every in-range index in exactly one drawn window
 //    [o, o+usr), out-of-range points only at the first/last window position and then with the cut/trim
 //    fraction of the boundary crossing (1/65536), no fraction without a crossing; join keeps sum raw and
@@ -1010,6 +1010,9 @@ static Target t = {
     "{below,at-min,inside,at-max,above} for [1,3]; the same up to length 6 (8) with 1..3 points per call; run lengths 65533..65537 x head/body/last-but-one/last over {below,inside,above}; "
     "linepart::array::apply for two coordinates ((x,y) sequences of length <= 6 (7) over {below,inside,above} x {inside,above}, from set(N) and from an empty array), where the points "
     "polyline::part::points() serves have to be exactly the points in range in every coordinate applied. "
+    "object histories: up to 16 steps of polyline::set (1-2 coordinates, also of different length, also around 65533/65535/131066 points) / clear / copy and linepart::array "
+    "set(n) / apply / set(-1) / set(0) / copy on 3 polylines and 3 part arrays, every live object checked after every step against the data it was made for (parts, points "
+    "served, point count, point values through the apply<>() template, terminating iteration); apply_data without part records. "
     "non-trivial: a part carries a cut or trim fraction, a join was accepted, the run is longer than 65535, a join hit the 16-bit limit, two fractions encode differently "
     "(all enumerated cases count); distinct by hash of the draw sequence.",
     run,
